@@ -3,7 +3,7 @@
 
 use crate::case::{Profile, NKINDS};
 use crate::mon::*;
-use crate::world::{CaseStats, HOLD_F1, STOP_REMOVED};
+use crate::world::{CaseStats, HOLD_F1};
 
 pub struct Spec {
     pub id: &'static str,
@@ -29,7 +29,7 @@ const W_READS: [u16; NKINDS] = [8, 5, 28, 3, 5, 4, 5, 3, 10, 2, 16, 1, 2, 1, 1, 
 const W_MEMBERSHIP: [u16; NKINDS] = [6, 5, 26, 3, 2, 6, 2, 2, 10, 14, 0, 2, 2, 2, 1, 1, 26, 6, 8, 3, 5, 2, 0, 1, 6, 0, 12, 0, 4];
 const W_FLOW: [u16; NKINDS] = [6, 3, 30, 5, 5, 3, 2, 2, 24, 1, 0, 1, 1, 3, 3, 1, 28, 6, 5, 1, 3, 2, 8, 1, 8, 2, 12, 0, 1];
 const W_SNAPSHOT: [u16; NKINDS] = [6, 4, 26, 4, 4, 5, 4, 3, 16, 3, 0, 1, 1, 6, 2, 4, 26, 6, 6, 3, 5, 10, 1, 3, 6, 0, 12, 0, 0];
-const W_PREVOTE: [u16; NKINDS] = [12, 10, 26, 4, 6, 3, 5, 3, 8, 2, 0, 1, 3, 1, 1, 0, 26, 6, 4, 4, 6, 1, 0, 0, 6, 0, 14, 0, 0];
+const W_PREVOTE: [u16; NKINDS] = [10, 12, 22, 3, 5, 3, 5, 3, 8, 2, 0, 1, 3, 1, 1, 0, 26, 6, 4, 4, 6, 4, 0, 0, 16, 0, 12, 0, 0];
 const W_TRANSFER: [u16; NKINDS] = [8, 4, 28, 4, 3, 5, 2, 2, 14, 4, 0, 12, 1, 1, 1, 0, 26, 6, 5, 2, 4, 1, 1, 0, 8, 0, 14, 0, 0];
 const W_CHAOS: [u16; NKINDS] = [8, 6, 26, 4, 4, 5, 3, 2, 14, 5, 2, 2, 2, 3, 2, 2, 26, 8, 7, 3, 6, 3, 3, 1, 6, 1, 14, 2, 2];
 
@@ -49,6 +49,7 @@ fn base(name: &'static str, weights: [u16; NKINDS]) -> Profile {
         no_apply_unpersisted: true,
         min_voters: 1,
         allow_initial_joint: true,
+        mode1_p: 0,
     }
 }
 
@@ -238,6 +239,7 @@ pub fn spec_for(id: &str) -> Option<Spec> {
         "C16" => {
             let mut p = base("prevote", W_PREVOTE);
             p.min_voters = 2;
+            p.mode1_p = 128;
             Spec {
                 id: "C16",
                 profile: p,
@@ -255,6 +257,7 @@ pub fn spec_for(id: &str) -> Option<Spec> {
         "C17" => {
             let mut p = base("transfer", W_TRANSFER);
             p.min_voters = 2;
+            p.mode1_p = 96;
             Spec {
                 id: "C17",
                 profile: p,
@@ -295,14 +298,14 @@ pub fn spec_for(id: &str) -> Option<Spec> {
                 id: "C10",
                 profile: p,
                 monitors: P10,
-                options: HOLD_F1 | STOP_REMOVED,
+                options: HOLD_F1 | crate::world::EXCLUDE_F8,
                 rule: "non-trivial = the fault prefix left >=1 of {follower in Snapshot state, full inflight window, paused probe, pending transfer, unapplied or joint config, >=2 nodes needing restart, divergent uncommitted tails}",
                 nontrivial: |_s, f| has(f, F_LIVENESS_NONTRIVIAL),
-                quick_cases: 12000,
-                thorough_cases: 800_000,
+                quick_cases: 40000,
+                thorough_cases: 1_600_000,
                 ops_quick: (30, 150),
                 ops_thorough: (40, 300),
-                repro_options: None,
+                repro_options: Some(crate::world::NO_F8_EXCLUSION),
             }
         }
         _ => return None,
